@@ -4,6 +4,7 @@ package verifharness_test
 
 import (
 	"crypto/tls"
+	"github.com/jub0bs/cors"
 	"io"
 	"net/http"
 	"net/url"
@@ -41,8 +42,13 @@ type rw struct {
 	wroteHeader int // number of WriteHeader calls
 	body        []byte
 	writes      int
-	snap        http.Header  // headers as of the first WriteHeader/Write (what a server would send)
-	inner       http.Handler // the wrapped handler to run for THIS exchange (see wrappedOnce)
+	snap        http.Header // headers as of the first WriteHeader/Write (what a server would send)
+	// buffered: the writer commits its header map when the exchange is over, with the first status it was given - what
+	// http.TimeoutHandler's writer and other buffering outer layers do. Honoured only for exchanges that the wrapped handler
+	// never saw, so that what is observed is the middleware's doing alone
+	// (lesson of seeded change C16-q: WriteHeader(403) without return - the headers of the success path land in the map afterwards)
+	buffered bool
+	inner    http.Handler // the wrapped handler to run for THIS exchange (see wrappedOnce)
 }
 
 func (w *rw) innerHandler() http.Handler { return w.inner }
@@ -88,6 +94,8 @@ func (w *rw) obs(calls int) Obs {
 	hdr := w.snap
 	if st == 0 {
 		st = 200
+		hdr = w.h
+	} else if w.buffered && calls == 0 {
 		hdr = w.h
 	}
 	// keys with zero values are not transmitted
@@ -295,6 +303,7 @@ func serve(mw wrapper, q Req) Obs {
 	inner := &countingHandler{body: "ok"}
 	w := newRW()
 	w.inner = inner
+	w.buffered = reqHash(q)>>9&1 == 1
 	wrappedOnce(mw).ServeHTTP(w, q.httpReq())
 	o := w.obs(inner.calls)
 	w.outerAdd()
@@ -363,6 +372,9 @@ func (p *wrappedPair) ServeHTTP(w http.ResponseWriter, r *http.Request) {
 	p.hs[p.n.Add(1)%2].ServeHTTP(w, r)
 }
 
+// stackedPassthrough: a middleware that is never configured.
+var stackedPassthrough = new(cors.Middleware)
+
 func wrappedOnce(mw wrapper) http.Handler {
 	if h, ok := wrapCache.Load(mw); ok {
 		return h.(http.Handler)
@@ -371,13 +383,20 @@ func wrappedOnce(mw wrapper) http.Handler {
 	if n%2 == 0 {
 		_ = mw.Wrap(decoyHandler{})
 	}
+	// every fifth middleware wraps a handler that another middleware - a passthrough one, which by definition changes
+	// nothing - has wrapped already: middlewares get stacked (a global one around per-route ones)
+	// (lesson of seeded change C11-q: Wrap handing back, untouched, a handler that ANY middleware had wrapped)
+	var app http.Handler = dispatchHandler{}
+	if n%5 == 1 {
+		app = stackedPassthrough.Wrap(dispatchHandler{})
+	}
 	var h http.Handler
 	if n%4 == 3 {
-		h = mw.Wrap(dispatchHandler{}) // a quarter of the middlewares wrap a single handler
+		h = mw.Wrap(app) // a quarter of the middlewares wrap a single handler
 	} else {
 		p := &wrappedPair{}
-		p.hs[0] = mw.Wrap(dispatchHandler{})
-		p.hs[1] = mw.Wrap(dispatchHandler{})
+		p.hs[0] = mw.Wrap(app)
+		p.hs[1] = mw.Wrap(app)
 		h = p
 	}
 	if n%3 != 0 {
